@@ -19,8 +19,10 @@ import (
 	"bytes"
 	"compress/flate"
 	"compress/gzip"
+	"compress/zlib"
 	"encoding/binary"
 	"fmt"
+	"io"
 	"io/ioutil"
 	"net/url"
 	"sync/atomic"
@@ -128,6 +130,10 @@ type adapter struct {
 
 	encoding Encoding
 
+	// deflateZlib says that the last compressed message of a "deflate" stream came in the zlib
+	// container (RFC 1950), so that it is passed on in the same form.
+	deflateZlib bool
+
 	// State for the data interpreter.
 	buffer     bytes.Buffer
 	state      dataState
@@ -216,7 +222,8 @@ func (a *adapter) Data(data []byte, streamEnded bool) error {
 					}
 				case Deflate:
 					var err error
-					data, err = deflate(data)
+					a.deflateZlib = isZlib(data)
+					data, err = deflate(data, a.deflateZlib)
 					if err != nil {
 						return fmt.Errorf("deflating data: %w", err)
 					}
@@ -307,7 +314,12 @@ func (e *emitter) Message(data []byte, streamEnded bool) error {
 			data = buf.Bytes()
 		case Deflate:
 			var buf bytes.Buffer
-			w, _ := flate.NewWriter(&buf, -1)
+			var w io.WriteCloser
+			if e.adapter.deflateZlib {
+				w = zlib.NewWriter(&buf)
+			} else {
+				w, _ = flate.NewWriter(&buf, -1)
+			}
 			if _, err := w.Write(data); err != nil {
 				return fmt.Errorf("flate compressing message data: %w", err)
 			}
@@ -348,8 +360,26 @@ func gunzip(data []byte) ([]byte, error) {
 	return ioutil.ReadAll(r)
 }
 
-func deflate(data []byte) (_ []byte, rerr error) {
-	r := flate.NewReader(bytes.NewReader(data))
+// isZlib reports whether data starts like a zlib stream (RFC 1950): compression method 8, a
+// window of at most 32 KiB, no preset dictionary and a valid check value. gRPC implementations
+// built on zlib send "deflate" messages in this container; a bare RFC 1951 stream that begins
+// with these two bytes is possible but very unlikely.
+func isZlib(data []byte) bool {
+	return len(data) >= 2 && data[0]&0x0f == 8 && data[0]>>4 <= 7 && data[1]&0x20 == 0 &&
+		(uint16(data[0])<<8|uint16(data[1]))%31 == 0
+}
+
+func deflate(data []byte, zlibContainer bool) (_ []byte, rerr error) {
+	var r io.ReadCloser
+	if zlibContainer {
+		zr, err := zlib.NewReader(bytes.NewReader(data))
+		if err != nil {
+			return nil, err
+		}
+		r = zr
+	} else {
+		r = flate.NewReader(bytes.NewReader(data))
+	}
 	defer func() {
 		if err := r.Close(); err != nil && rerr != nil {
 			rerr = err
